@@ -933,6 +933,11 @@ class ShortIntegrationFrameComputer(LinearFilterBankFrameComputer):
         # given a buffer, compute its fourier transform. Always copies
         # the data
         assert len(buff) <= self._dft_size
+        # numpy >= 2 keeps single precision in its transforms; we always work in double
+        if np.iscomplexobj(buff):
+            buff = np.asarray(buff, dtype=np.complex128)
+        else:
+            buff = np.asarray(buff, dtype=np.float64)
         if config.USE_FFTPACK and self._real:
             from scipy import fftpack
 
